@@ -94,11 +94,56 @@ func init() {
 		}
 		return StrConst(fmt.Sprint(parts...))
 	}
-	for _, n := range []string{"fmt.Fprintf", "fmt.Fprintln", "fmt.Fprint"} {
-		intrinsics[n] = func(ex *Exec, fn *ssa.Function, args []Value) Value {
-			return TupleV{BVConst(0, 64), IfaceV{}}
+	// fmt.Fprint* : formatted text is written through the writer's own Write method (bytes.Buffer, strings.Builder,
+	// user writers); writes to an *os.File (stdout / stderr / log files) are dropped.
+	fprint := func(kind int) intrinsic {
+		return func(ex *Exec, fn *ssa.Function, args []Value) Value {
+			w, ok := args[0].(IfaceV)
+			if !ok || w.T == nil {
+				ex.unsupported("fmt.Fprint* to a nil writer")
+			}
+			if strings.HasSuffix(w.T.String(), "os.File") {
+				return TupleV{BVConst(0, 64), IfaceV{}}
+			}
+			var out string
+			if kind == 0 {
+				out = ex.sprintf(args[1], args[2])
+			} else {
+				sv := args[1].(SliceV)
+				var parts []interface{}
+				for k := 0; k < sv.Len; k++ {
+					parts = append(parts, ex.toFmtArg(sv.A.E[sv.Off+k].V))
+				}
+				if kind == 1 {
+					out = fmt.Sprint(parts...)
+				} else {
+					out = fmt.Sprintln(parts...)
+				}
+			}
+			mset := ex.H.Prog.SSA.MethodSets.MethodSet(w.T)
+			var wr *ssa.Function
+			for i := 0; i < mset.Len(); i++ {
+				if sel := mset.At(i); sel.Obj().Name() == "Write" {
+					wr = ex.H.Prog.lookupMethod(w.T, sel.Obj().(*types.Func))
+				}
+			}
+			if wr == nil {
+				ex.unsupported("fmt.Fprint*: writer %s has no Write method", w.T)
+			}
+			locs := make([]*Loc, len(out))
+			for k := 0; k < len(out); k++ {
+				locs[k] = &Loc{V: BVConst(uint64(out[k]), 8)}
+			}
+			r := ex.call(wr, []Value{w.V, SliceV{A: &ArrayV{E: locs}, Len: len(locs), Cap: len(locs)}}, nil)
+			if tv, ok := r.(TupleV); ok {
+				return tv
+			}
+			return TupleV{BVConst(uint64(len(out)), 64), IfaceV{}}
 		}
 	}
+	intrinsics["fmt.Fprintf"] = fprint(0)
+	intrinsics["fmt.Fprint"] = fprint(1)
+	intrinsics["fmt.Fprintln"] = fprint(2)
 	// standard output is captured (verifCaptureStdout) rather than printed
 	intrinsics["fmt.Printf"] = func(ex *Exec, fn *ssa.Function, args []Value) Value {
 		out := ex.sprintf(args[0], args[1])
@@ -136,6 +181,11 @@ func init() {
 			sv.A.E[sv.Off+k].V = StrConst(strs[k])
 		}
 		return nil
+	}
+	// typeutil.Hasher.hashPtr hashes a pointer identity via reflect; any constant is a valid hash (buckets compare
+	// with types.Identical)
+	intrinsics["(golang.org/x/tools/go/types/typeutil.Hasher).hashPtr"] = func(ex *Exec, fn *ssa.Function, args []Value) Value {
+		return BVConst(7919, 32)
 	}
 	// --- reflect
 	intrinsics["reflect.DeepEqual"] = func(ex *Exec, fn *ssa.Function, args []Value) Value {
@@ -574,10 +624,46 @@ func (ex *Exec) sprintf(format Value, rest Value) string {
 	f := ex.concStr(format, "fmt.Sprintf format")
 	sv := rest.(SliceV)
 	var parts []interface{}
+	verbs := fmtVerbs(f)
 	for k := 0; k < sv.Len; k++ {
-		parts = append(parts, ex.toFmtArg(sv.A.E[sv.Off+k].V))
+		v := sv.A.E[sv.Off+k].V
+		if k < len(verbs) && !strings.ContainsRune("vsq", verbs[k]) {
+			// fmt only consults Error / String for the verbs %v %s %q
+			if iv, ok := v.(IfaceV); ok && iv.T != nil {
+				parts = append(parts, ex.toFmtArgTyped(iv.V, iv.T))
+				continue
+			}
+		}
+		parts = append(parts, ex.toFmtArg(v))
 	}
 	return fmt.Sprintf(f, parts...)
+}
+
+// fmtVerbs lists the verb consuming each successive operand of a format string (explicit argument indexes and
+// '*' widths are not modelled: the list is cut there and the remaining operands take the default route).
+func fmtVerbs(f string) []rune {
+	var out []rune
+	rs := []rune(f)
+	for i := 0; i < len(rs); i++ {
+		if rs[i] != '%' {
+			continue
+		}
+		i++
+		for i < len(rs) && strings.ContainsRune("+-# 0123456789.", rs[i]) {
+			i++
+		}
+		if i >= len(rs) {
+			break
+		}
+		if rs[i] == '%' {
+			continue
+		}
+		if rs[i] == '[' || rs[i] == '*' {
+			return out
+		}
+		out = append(out, rs[i])
+	}
+	return out
 }
 
 func sortSliceIntrinsic(ex *Exec, fn *ssa.Function, args []Value) Value {
